@@ -170,6 +170,8 @@ theorem invE_uBody {cfg : Cfg} {s : St} {p} (h : InvE s) : InvE (uBody cfg s p) 
       · unfold callUndeploy
         refine ⟨?_, ?_, ?_, ?_, ⟨?_, ?_⟩, ?_, ?_, ?_, ?_, ?_, ?_, ?_, ?_, ?_, ?_⟩ <;> sg
       · split <;> (refine ⟨?_, ?_, ?_, ?_, ⟨?_, ?_⟩, ?_, ?_, ?_, ?_, ?_, ?_, ?_, ?_, ?_, ?_⟩ <;> sg)
+  · refine invE_setPc ?_
+    refine ⟨?_, ?_, ?_, ?_, ⟨?_, ?_⟩, ?_, ?_, ?_, ?_, ?_, ?_, ?_, ?_, ?_, ?_⟩ <;> sg
   · exact invE_setPc h'
 
 theorem invE_callUndeploy_lazy {s : St} {p o e} (h : InvE s) (hl : s.lazy = true) (ho : o < s.nObj) : InvE (callUndeploy s p o e) := by
@@ -192,6 +194,18 @@ theorem invE_useStart {s : St} {p} (h : InvE s) : InvE (useStart s p) := by
     · split
       · refine ⟨?_, ?_, ?_, ?_, ⟨?_, ?_⟩, ?_, ?_, ?_, ?_, ?_, ?_, ?_, ?_, ?_, ?_⟩ <;> sg
       · split <;> exact invE_setPc h'
+
+theorem invE_connFail_stale {s : St} {p o} (h : InvE s) (hpc : s.pc p = .dConn o) (hd : s.depmap = none) :
+    InvE (setPc (setObj s o { s.objs o with dep := .failed }) p .failed) := by
+  obtain ⟨h1, h2, h3, h3', ⟨h4, h4b⟩, h5, h6, h7, h8, h9, h10, h11, h12, h13, h14⟩ := h
+  have hp := h10 p o hpc
+  refine ⟨?_, ?_, ?_, ?_, ⟨?_, ?_⟩, ?_, ?_, ?_, ?_, ?_, ?_, ?_, ?_, ?_, ?_⟩ <;> sg
+
+theorem invE_connFail_own {s : St} {p o e} (h : InvE s) (hpc : s.pc p = .dConn o) :
+    InvE (setPc (setEvent (setObj { s with depmap := none } o { s.objs o with dep := .failed }) e) p .failed) := by
+  obtain ⟨h1, h2, h3, h3', ⟨h4, h4b⟩, h5, h6, h7, h8, h9, h10, h11, h12, h13, h14⟩ := h
+  have hp := h10 p o hpc
+  refine ⟨?_, ?_, ?_, ?_, ⟨?_, ?_⟩, ?_, ?_, ?_, ?_, ?_, ?_, ?_, ?_, ?_, ?_⟩ <;> sg
 
 theorem invE_step {cfg : Cfg} {s a s'} (h : InvE s) (hs : step cfg s a = some s') : InvE s' := by
   have h' := h
@@ -240,8 +254,16 @@ theorem invE_step {cfg : Cfg} {s a s'} (h : InvE s) (hs : step cfg s a = some s'
     · rename_i o hpc
       have hp := h10 p o hpc
       split at hs
-      · cases hs
-        refine ⟨?_, ?_, ?_, ?_, ⟨?_, ?_⟩, ?_, ?_, ?_, ?_, ?_, ?_, ?_, ?_, ?_, ?_⟩ <;> sg
+      · split at hs
+        · rename_i hnone
+          have hd : s.depmap = none := by
+            cases hx : s.depmap with
+            | none => rfl
+            | some d => rw [hx] at hnone; simp at hnone
+          cases hs
+          exact invE_connFail_stale h' hpc hd
+        · cases hs
+          exact invE_connFail_own h' hpc
       · cases hs
     · rename_i f o hpc
       have hp := h13 p f o hpc
